@@ -1032,8 +1032,11 @@ def emit_rust(consts_list, structs, to_str, sizes):
     L.append("}")
     L.append("pub fn call_to_string(name: &str, v: i128) -> Option<String> {")
     L.append("    match name {")
+    def stringy(f):
+        # the *_to_string functions: the delegating ones and those with a body of their own (p_flags_to_string)
+        return f["kind"] == "to_string" or (f["kind"] == "other" and f["name"].endswith("_to_string") and f["argty"] in rng)
     for f in to_str:
-        if f["kind"] != "to_string":
+        if not stringy(f):
             continue
         lo, hi = rng[f["argty"]]
         L.append('        "%s" => if v >= %d && v <= %d { Some(elf::to_str::%s(v as %s)) } else { None },'
@@ -1043,7 +1046,7 @@ def emit_rust(consts_list, structs, to_str, sizes):
     L.append("}")
     L.append("pub const TO_STR_FUNCS: &[(&str, &str)] = &[")
     for f in to_str:
-        if f["kind"] in ("to_str", "to_string"):
+        if f["kind"] == "to_str" or stringy(f):
             L.append('    ("%s", "%s"),' % (f["name"], f["argty"]))
     L.append("];")
     return "\n".join(L) + "\n"
